@@ -20,7 +20,7 @@ RULE = ('tables: S(12)/S(16) ∪ F; labelings ascending, descending, and (tables
 ASSUMPTIONS = ['the DOT text is read by an independent parser written from the DOT grammar',
                'labels without backslashes and not of the form <...> (DOT escape / HTML syntax is '
                'outside the statement)']
-HITS = ('hit_one_concept', 'hit_two_concepts', 'hit_multi_label')
+HITS = ('hit_one_concept', 'hit_two_concepts', 'hit_multi_label', 'hit_failed_drawing')
 BUDGET = {'quick': 240, 'thorough': 3000}
 
 
@@ -34,6 +34,31 @@ CALLBACKS = [
     ('tag', lambda names: 'L[' + '|'.join(names) + ']'),
     ('empty-text', lambda names: ''),      # a label whose text is empty is still a label
 ]
+
+
+def PADDED(names):
+    return '  ' + ' , '.join(names) + ' '
+
+
+class Failing:
+    """Label callbacks that share one call counter and raise at the j-th call."""
+
+    class Boom(Exception):
+        pass
+
+    last = None
+
+    def __init__(self, j):
+        self.j, self.n = j, 0
+        Failing.last = self
+
+    def wrap(self, cb):
+        def f(names):
+            self.n += 1
+            if self.n - 1 == self.j:
+                raise Failing.Boom()
+            return cb(names)
+        return f
 
 
 def check_case(case, ctr):
@@ -63,15 +88,40 @@ def check_case(case, ctr):
     # repeated drawings of the SAME lattice with one callback changed at a time
     runs += [('comma/tag', CALLBACKS[1][1], CALLBACKS[2][1]),
              ('comma/comma', CALLBACKS[1][1], CALLBACKS[1][1]),
-             ('tag/comma', CALLBACKS[2][1], CALLBACKS[1][1])]
+             ('tag/comma', CALLBACKS[2][1], CALLBACKS[1][1]),
+             # only one of the two callbacks given: the other keeps its default
+             ('comma/-', CALLBACKS[1][1], None), ('-/tag', None, CALLBACKS[2][1]),
+             # the text is the callback's, blanks at its ends included
+             ('padded', PADDED, PADDED)]
+    # a drawing that fails midway (a callback raising at its j-th call, every j on small tables)
+    # must not change what the next drawing of the same lattice shows
+    ncalls = sum(1 for x in olabs if x) + sum(1 for x in plabs if x)
+    points = range(ncalls) if case.n * case.m <= 12 else sorted({0, ncalls // 2, ncalls - 1} - {-1})
+    for j in points:
+        runs.append((f'after-failure-at-{j}', CALLBACKS[2][1], CALLBACKS[2][1]))
     for cbname, cb, cbp in runs:
         seen_args = []
-        if cb is None:
+        fo = cb if cb is not None else ' '.join
+        fp = cbp if cbp is not None else ' '.join
+        lat = case.lat
+        if cbname.startswith('after-failure-at-'):
+            ctr['hit_failed_drawing'] += 1
+            if case.n * case.m <= 12 and case.variant == 'fresh':
+                lat = case.fresh_ctx().lattice      # the failed drawing is this lattice's first
+            try:
+                lat.graphviz(make_object_label=Failing(int(cbname.rsplit('-', 1)[1])).wrap(cb),
+                             make_property_label=Failing.last.wrap(cbp))
+            except Failing.Boom:
+                pass
+        if cb is None and cbp is None:
             dot = lat.graphviz()
-            fo = fp = ' '.join
         elif cbname == 'tag/comma':
             # documented parameter order: filename, directory, render, view, then the callbacks
             dot = lat.graphviz(None, None, False, False, cb, cbp)
+        elif cb is None:
+            dot = lat.graphviz(make_property_label=cbp)
+        elif cbp is None:
+            dot = lat.graphviz(make_object_label=cb)
         else:
             dot = lat.graphviz(make_object_label=cb, make_property_label=cbp)
         ctr['calls'] += 1
@@ -93,9 +143,9 @@ def check_case(case, ctr):
         if plain != exp_edges:
             bad('edges', exp_edges, plain, callback=cbname)
         loops = [s for s in stmts if s[0] == 'edge' and s[1] == s[2]]
-        exp_head = sorted((name[i], (fo if cb is None else cb)(case.olab(olabs[i])))
+        exp_head = sorted((name[i], fo(case.olab(olabs[i])))
                           for i in range(k) if olabs[i])
-        exp_tail = sorted((name[i], (fp if cb is None else cbp)(case.plab(plabs[i])))
+        exp_tail = sorted((name[i], fp(case.plab(plabs[i])))
                           for i in range(k) if plabs[i])
         got_head = sorted((s[1], s[3]['headlabel']) for s in loops if 'headlabel' in s[3])
         got_tail = sorted((s[1], s[3]['taillabel']) for s in loops if 'taillabel' in s[3])
@@ -137,6 +187,7 @@ def run_shard(shard, tier):
                 vs = check_case(case, ctr)
             except Exception as e:
                 vs = [common.library_exception(ID, case.ident(), e)]
+            e1.track(case, vs, tier)
             ctr['evaluations'] += 1
             res['violations'].extend(vs[:2])
         for k_, v_ in ctr.items():
